@@ -1452,16 +1452,25 @@ mzd_t *mzd_stack(mzd_t *C, mzd_t const *A, mzd_t const *B) {
     m4ri_die("mzd_stack: C has wrong dimension!\n");
   }
 
+  word const mask_end = C->high_bitmask;
   for (rci_t i = 0; i < A->nrows; ++i) {
     word const *src_truerow = mzd_row_const(A, i);
     word *dst_truerow = mzd_row(C, i);
-    for (wi_t j = 0; j < A->width; ++j) { dst_truerow[j] = src_truerow[j]; }
+    for (wi_t j = 0; j < A->width - 1; ++j) { dst_truerow[j] = src_truerow[j]; }
+    if (A->width > 0) {
+      wi_t const j   = A->width - 1;
+      dst_truerow[j] = (dst_truerow[j] & ~mask_end) | (src_truerow[j] & mask_end);
+    }
   }
 
   for (rci_t i = 0; i < B->nrows; ++i) {
     word *dst_truerow = mzd_row(C, A->nrows + i);
     word const *src_truerow = mzd_row_const(B, i);
-    for (wi_t j = 0; j < B->width; ++j) { dst_truerow[j] = src_truerow[j]; }
+    for (wi_t j = 0; j < B->width - 1; ++j) { dst_truerow[j] = src_truerow[j]; }
+    if (B->width > 0) {
+      wi_t const j   = B->width - 1;
+      dst_truerow[j] = (dst_truerow[j] & ~mask_end) | (src_truerow[j] & mask_end);
+    }
   }
 
   __M4RI_DD_MZD(C);
